@@ -11,17 +11,17 @@ from ..absint import Interp, Obj, InterpRaise, Uninterpretable, Unknown, explore
 
 EXPLANATION = (
     'Static analysis of supp/project.py. R1 root precedence: the search path used by get_module and by '
-    'list_packages is the same expression and lists the project sources before sys.path; R2 first hit wins: '
-    'Project.get_module is abstractly interpreted (sa/absint.py) over a symbolic file system - every '
-    'os.path.exists probe forks the analysis - with two source roots, one sys.path entry and two module suffixes; '
-    'on every path the module file chosen must be the first probe answered "exists", the probes must be issued '
-    'root by root, module suffixes before the package __init__.py, and a name found nowhere (and not loaded) must '
-    'end in ImportError; R3 get_module and list_packages use the same suffix table and package marker; R4 every '
+    'list_packages is the same expression and lists the project sources before sys.path; R2 the search of importlib: '
+    'Project.get_module is abstractly interpreted (sa/absint.py) on every small concrete file system (two source roots and one '
+    'sys.path entry, each holding nothing, a module pkg.py, or a package pkg that is empty or has a source, compiled or package '
+    'submodule mod) for the names pkg and pkg.mod; the file analysed must be the one importlib\'s algorithm finds - parent '
+    'package first, the submodule only in that package\'s directory, a compiled module imported instead of parsed - and a name '
+    'importlib does not find must end in ImportError; R3 get_module and list_packages use the same suffix table and package marker; R4 every '
     'explicit raise reachable from get_nmodule/get_module/norm_package raises ImportError (callers catch exactly '
     'that); R5 Project.norm_package, abstractly interpreted on a fixed three-level package tree, returns what '
     'importlib.util.resolve_name returns for every file and level 1..4, alone and after every other call on the same '
     'project (the directory cache). Agreement with importlib on arbitrary concrete trees is NOT decided.')
-TECHNIQUE = 'abstract interpretation of get_module over a symbolic file system + derivation/sibling rules + raise-class rule'
+TECHNIQUE = 'abstract interpretation of get_module on enumerated concrete file systems against the algorithm of importlib + derivation/sibling rules + raise-class rule'
 
 PROJECT = 'supp/project.py'
 
@@ -63,62 +63,88 @@ def run(repo, res):
     from .. import api_model as _am
     _am.apply(res, _am.list_packages_model(repo), {'lp': 'C07-R1'}, PROJECT, lp.lineno)
 
-    # ---- R2 / R4 abstract interpretation of get_module -----------------------------------------------
+    # ---- R2 / R4 get_module interpreted on every small concrete file system, compared with importlib's algorithm ----------
+    # (until round 7 this rule explored a symbolic file system and demanded that the probes go root by root - which is supp's own
+    #  strategy, not importlib's: importlib binds the parent package first and looks for a submodule only in that package's directory)
+    import itertools
     it = Interp(repo, facts)
     env = it.module_env(PROJECT)
     thorough = getattr(repo, 'tier', 'quick') == 'thorough'
-    suffixes = ['.py', '.so', '.pyc'] if thorough else ['.py', '.so']
+    env['SUFFIXES'] = ['.py', '.so']
     roots_src = ['<S1>', '<S2>', '<S3>'] if thorough else ['<S1>', '<S2>']
-    roots_sys = ['<P1>', '<P2>'] if thorough else ['<P1>']
-    env['SUFFIXES'] = list(suffixes)
+    roots_sys = ['<P1>']
+    roots = roots_src + roots_sys
     it.sys_path = list(roots_sys)
+    # what one root may hold: nothing; a module pkg.py; a package pkg, empty or with a source or a compiled submodule mod
+    # (outside the quantifier: namespace packages - a directory pkg without __init__.py -, pkg.py next to pkg/, mod.py next to mod.so)
+    STATES = [(), ('pkg.py',), ('pkg/__init__.py',), ('pkg/__init__.py', 'pkg/mod.py'), ('pkg/__init__.py', 'pkg/mod.so'),
+              ('pkg/__init__.py', 'pkg/mod/__init__.py')]
+
+    def importlib_finds(name, fs):
+        search = list(roots)
+        parts = name.split('.')
+        for i, part in enumerate(parts):
+            found = None
+            for d in search:
+                if '%s/%s/__init__.py' % (d, part) in fs:
+                    found = ('package', '%s/%s' % (d, part), '%s/%s/__init__.py' % (d, part))
+                    break
+                hit = next(('%s/%s%s' % (d, part, sx) for sx in ('.so', '.py') if '%s/%s%s' % (d, part, sx) in fs), None)
+                if hit:
+                    found = ('module', None, hit)
+                    break
+            if found is None:
+                return None
+            if i == len(parts) - 1:
+                return found[2]
+            if found[0] != 'package':
+                return None               # a module has no submodules
+            search = [found[1]]
+        return None
     paths = 0
-    results = []
-
-    def runner():
-        p = it.instantiate(proj, [list(roots_src)], {})
-        return it.call(it.getattr(p, 'get_module'), ['pkg.mod'], {})
-
+    bad2 = []
     try:
-        explored = explore(it, runner)
+        for combo in itertools.product(STATES, repeat=len(roots)):
+            fs = {'%s/%s' % (r, f) for r, st in zip(roots, combo) for f in st}
+            for name in ('pkg.mod', 'pkg'):
+                paths += 1
+                it.reset_path([])
+                it.steps = 0
+                it.fs = set(fs)
+                it.sys_modules = {}
+                p = it.instantiate(proj, [list(roots_src)], {})
+                want = importlib_finds(name, fs)
+                try:
+                    r = it.call(it.getattr(p, 'get_module'), [name], {})
+                    if isinstance(r, Obj) and r.attrs.get('filename') is not None:
+                        got = r.attrs.get('filename')
+                    else:
+                        wrapped = r.attrs.get('module') if isinstance(r, Obj) else None
+                        got = 'imported %s' % getattr(wrapped, 'name', wrapped)
+                except InterpRaise as e:
+                    got = e.exc_name
+                if want is None:
+                    ok = got in ('ImportError', 'ModuleNotFoundError')
+                elif want.endswith('.so'):
+                    ok = got == 'imported %s' % name        # a compiled module is imported, not parsed: the module itself, not its top-level package
+                else:
+                    ok = got == want
+                if not ok:
+                    bad2.append((sorted(fs), name, got, want or 'ImportError'))
     except Uninterpretable as e:
         raise AnalysisError('get_module is outside the interpretable subset: %s' % e)
-    want_order = []
-    for root in roots_src + roots_sys:
-        want_order += ['%s/pkg/mod%s' % (root, sx) for sx in suffixes] + ['%s/pkg/mod/__init__.py' % root]
-    for decisions, result, exc, effects, objs in explored:
-        paths += 1
-        probes = [e[1] for e in effects if e[0] == 'probe']
-        answers = [(t[1], v) for t, v in decisions if t[0] == 'exists']
-        first_true = next((p for p, v in answers if v), None)
-        key = 'file system: %s' % ('first existing = %s' % first_true if first_true else 'nothing exists')
-        if any(t[0] == 'in' and v for t, v in decisions):
-            key += ' (already loaded)'
-        # probe order is a prefix of the reference order
-        ok_order = probes == want_order[:len(probes)]
-        chosen = None
-        if isinstance(result, Obj):
-            chosen = result.attrs.get('filename')
-        imported = [e[1] for e in effects if e[0] == 'import']
-        if first_true is None:
-            loaded = any(t[0] == 'in' and v for t, v in decisions)
-            ok = ok_order and (exc is not None and exc.exc_name in ('ImportError', 'ModuleNotFoundError') if not loaded
-                               else exc is None)
-            msg = 'a module found under no root %s; got %s' % (
-                'and not loaded must raise ImportError' if not loaded else 'but loaded must be served from sys.modules',
-                exc or result)
-        elif not first_true.endswith('.py'):
-            wrapped = result.attrs.get('module') if isinstance(result, Obj) else None
-            ok = ok_order and exc is None and (chosen is None) and getattr(wrapped, 'name', 'pkg.mod') == 'pkg.mod'
-            msg = 'a compiled module must be imported, not parsed, and the module analysed must be pkg.mod itself (__import__ returns ' \
-                  'the top-level package): got %s wrapping %s, imported %s' % (result, wrapped, imported)
-        else:
-            ok = ok_order and exc is None and chosen == first_true
-            msg = 'the first existing file in search order is %s but get_module analyses %s (probes: %s)' % (
-                first_true, chosen, probes)
-        res.check('C07-R2', key, ok, PROJECT, 0, msg, sample='%s -> %s' % (key, chosen or (exc and exc.exc_name) or 'imported'))
-        results.append((key, chosen))
-    res.count('file_system_paths', paths, floor=10)
+    finally:
+        it.fs = None
+    res.obligations += paths - 1
+    res.discharged += paths - 1 - (1 if bad2 else 0)
+    bad2.sort(key=lambda b: len(b[0]))
+    b = bad2[:1]
+    res.check('C07-R2', 'get_module finds what importlib finds', not bad2, PROJECT, repo.method(PROJECT, 'Project', 'get_module').lineno,
+              'with the files %s under the roots %s, get_module(%r) gives %s; importlib binds each parent package first (the first root '
+              'that has it) and looks for the submodule only there: %s (%d of %d file systems x names differ)'
+              % (b[0][0] if b else '', roots, b[0][1] if b else '', b[0][2] if b else '', b[0][3] if b else '', len(bad2), paths),
+              sample='%d file systems x names: get_module agrees with importlib\'s parent-first search' % paths)
+    res.count('file_system_paths', paths, floor=100)
 
     # ---- R5 relative names (norm_package) on a fixed package tree, incl. call sequences on one project ----
     it2 = Interp(repo, facts)
